@@ -850,17 +850,46 @@ func (fr *frame) loopEnv(li *loopInfo, st *State, phiVals map[*ssa.Phi]TV) *Env 
 				}
 			}
 		}
-		if name == "$visited" {
+		if name == "$visited" || strings.HasPrefix(name, "$visited#") {
 			// the set of keys yielded so far by the map iteration of this loop
-			for b := range li.body {
-				for _, in := range b.Instrs {
-					if nx, ok := in.(*ssa.Next); ok && !nx.IsString {
-						if r, ok := nx.Iter.(*ssa.Range); ok {
-							if mt, isMap := r.X.Type().Underlying().(*types.Map); isMap {
-								rs := "(Array " + SortOf(mt.Key()) + " Bool)"
-								return TV{T: fr.s.getMap(st, RangeVarName(r), rs), S: rs}, true
+			// ($visited#N: of the map-range loop with ordinal N, e.g. an enclosing one)
+			target := li
+			if strings.HasPrefix(name, "$visited#") {
+				target = nil
+				if n, err := strconv.Atoi(name[len("$visited#"):]); err == nil {
+					for _, l := range fr.loops {
+						if l.ordinal == n {
+							target = l
+						}
+					}
+				}
+			}
+			if target != nil {
+				visitedOf := func(b *ssa.BasicBlock) (TV, bool) {
+					for _, in := range b.Instrs {
+						if nx, ok := in.(*ssa.Next); ok && !nx.IsString {
+							if r, ok := nx.Iter.(*ssa.Range); ok {
+								if mt, isMap := r.X.Type().Underlying().(*types.Map); isMap {
+									rs := "(Array " + SortOf(mt.Key()) + " Bool)"
+									return TV{T: fr.s.getMap(st, RangeVarName(r), rs), S: rs}, true
+								}
 							}
 						}
+					}
+					return TV{}, false
+				}
+				if v, ok := visitedOf(target.header); ok {
+					return v, true
+				}
+				// deterministic order: the lowest-numbered block of the body
+				var blocks []*ssa.BasicBlock
+				for b := range target.body {
+					blocks = append(blocks, b)
+				}
+				sort.Slice(blocks, func(i, j int) bool { return blocks[i].Index < blocks[j].Index })
+				for _, b := range blocks {
+					if v, ok := visitedOf(b); ok {
+						return v, true
 					}
 				}
 			}
@@ -1034,6 +1063,46 @@ func (fr *frame) lookupLocalBefore(name string, at *ssa.BasicBlock, limit ssa.In
 		return fr.load(st, l), true
 	}
 	return fr.val(bestVal, st), true
+}
+
+// singleDefLocal resolves a source variable for postconditions: only variables that
+// are assigned exactly once (every reference of the identifier names the same SSA
+// value, never through an address) qualify, so the value does not depend on the
+// return site. On paths that leave before the definition the term is unconstrained.
+func (fr *frame) singleDefLocal(name string, st *State) (TV, bool) {
+	var val ssa.Value
+	for _, b := range fr.fn.Blocks {
+		for _, in := range b.Instrs {
+			if p, ok := in.(*ssa.Phi); ok && p.Comment == name {
+				return TV{}, false
+			}
+			d, ok := in.(*ssa.DebugRef)
+			if !ok {
+				continue
+			}
+			id, ok := d.Expr.(*ast.Ident)
+			if !ok || id.Name != name {
+				continue
+			}
+			if d.IsAddr {
+				return TV{}, false
+			}
+			if c, isC := d.X.(*ssa.Const); isC && c.Value == nil {
+				continue // zero value recorded at a declaration
+			}
+			if val != nil && val != d.X {
+				return TV{}, false
+			}
+			val = d.X
+		}
+	}
+	if val == nil {
+		return TV{}, false
+	}
+	if _, computed := fr.vals[val]; !computed {
+		return TV{}, false
+	}
+	return fr.val(val, st), true
 }
 
 // lookupRenamed: a declared local (`local name type`) that no longer exists under
